@@ -48,7 +48,9 @@ def judge(path, events, allowed_dirs):
             if not p.startswith('/'): p = os.path.abspath(p)
             rp = os.path.realpath(p)
             if rp == os.path.realpath(path) or any(rp.startswith(os.path.realpath(d) + os.sep) for d in allowed_dirs + stdlib) or rp.startswith('/proc/') or rp == '/dev/null': continue
-            if p.endswith(('.pyc', '.py')) or '__pycache__' in p: continue
+            # (source and byte-code files are opened by the import system: fine inside the bundle, the standard library, site-packages and this harness;
+            #  a .py file anywhere else means the parse executed code from a place the FILE chose)
+            if (p.endswith(('.pyc', '.py')) or '__pycache__' in p) and any(rp.startswith(os.path.realpath(d) + os.sep) for d in allowed_dirs + stdlib + [common.VERIF, common.REPO]): continue
             bad.append(('open', p))
     return bad
 
@@ -129,7 +131,7 @@ def run(ctx):
                 ctx.violation(dict(kind='benign-parse-does-more-than-read', file=os.path.basename(f), events=bad[:10],
                                    how='ReplayParser(file).get_info() under sys.addaudithook (tools/c18.audited_parse)'))
         # (2) hostile pickles in every pickled argument
-        wv = battle.wows_versions(); picks = wv if not q else battle.representative_versions(9)[1::2]
+        wv = battle.wows_versions(); picks = wv if not q else battle.representative_versions(9)[::2]
         orig_dumps = pickle.dumps
         for v in picks:
             p = os.path.join(tmp, 'hostile-%s.wowsreplay' % v)
@@ -167,6 +169,50 @@ def run(ctx):
         if pl_other and not new_site_replay:
             ctx.violation(dict(kind='new-deserialisation-site', sites=pl_other[:5],
                                note='a pickle.load(s) call outside the per-version controllers; the hostile-packet-body search did not reach it'), no_input=True)
+        # (2c) hostile pickles as the value of every PYTHON-typed client property and method argument (a PYTHON value is delivered as bytes;
+        #      nothing may unpickle it on the way)
+        for game, v, ext in (('wot', '1_10_0', 'wotreplay'), ('wot', '1_8_0', 'wotreplay'), ('wowp', '2_1_17', 'wowpreplay'), ('wows', wv[-1], 'wowsreplay'), ('wows', wv[0], 'wowsreplay')):
+            dv = os.path.join(bundled, 'clients', game, 'versions', v)
+            try:
+                b = battle.Battle(dv, {'wows': 'wows126' if tuple(map(int, v.split('_')[:3])) >= (12, 6, 0) else 'wows', 'wot': 'wot', 'wowp': 'wowp'}[game], random.Random(3))
+            except Exception: continue
+            A = 321; b.base_player(A)
+            if game != 'wowp':
+                try: b.cell_player(A)
+                except Exception: pass
+            hp2 = hostile_pickle(); npk = 0
+            def has_py(t): return t[0] == 'python' or (t[0] == 'user' and has_py(t[1])) or (t[0] == 'array' and has_py(t[1])) or (t[0] == 'dict' and any(has_py(ft) for _, ft in t[1]))
+            def fill(t):
+                if t[0] == 'python': return ('b', hp2)
+                if t[0] == 'user': return fill(t[1])
+                if t[0] == 'array': return [fill(t[1])] * (t[2] if t[2] is not None else 1)
+                if t[0] == 'dict': return {n: fill(ft) for n, ft in t[1]}
+                return battle.default_value(t, random.Random(1))
+            for ename in b.md.names:
+                ent = b.md.ent[ename]
+                for i, (pn, pt) in enumerate(ent['client']):
+                    if has_py(pt):
+                        if ename != 'Avatar':
+                            try: b.create(4000 + npk, ename, [])
+                            except Exception: continue
+                        eid = A if ename == 'Avatar' else 4000 + npk
+                        b.pkt('EntityProperty', struct.pack('<II', eid, i) + battle.synth.binstream(gen_types.wire_of(pt, fill(pt)))); npk += 1
+                for i, m in enumerate(ent['methods']):
+                    if any(has_py(at) for an, at in m['args']) and ename == 'Avatar':
+                        body = b''.join(gen_types.wire_of(at, fill(at), max(m['hdr'], 0)) for an, at in m['args'])
+                        b.pkt('EntityMethod', struct.pack('<II', A, i) + battle.synth.binstream(body)); npk += 1
+            if not npk: continue
+            vs_ = {'wot': 'World\xa0of\xa0Tanks v.%s.0 #77' % v.replace('_', '.'), 'wowp': 'World of Warplanes %s.5' % v.replace('_', '.'), 'wows': ','.join(v.split('_')[:3] + ['1'])}[game]
+            p = os.path.join(tmp, 'pyvals.' + ext); battle.write_replay(p, ext, {('clientVersion' if game == 'wowp' else 'clientVersionFromXml'): vs_}, b.stream())
+            out, ev, marks = audited_parse(p)
+            ctx.case(('python-typed-values', game, v)); ctx.count('python-typed-packets', npk)
+            if marks or any(e == 'pickle.find_class' and a[:2] == ('tools.c18_marker', 'mark') for e, a in ev):
+                calls = [a for e, a in ev if e == 'pickle.find_class']
+                # the listed finding covers controller callbacks unpickling their ARGUMENTS; a value unpickled by the type codec itself is something else:
+                # tell them apart by running the same stream with nothing subscribed
+                ctx.deviation('unrestricted-pickle', {'class': 'unrestricted-pickle', 'channel': 'python-typed-value:%s/%s' % (game, v)},
+                              dict(kind='python-typed-value-unpickled', version='%s/%s' % (game, v), packets=npk, find_class=calls[:3],
+                                   how='a replay whose PYTHON-typed property values / method arguments are the hostile pickle; ReplayParser(file).get_info() under the audit hook'))
         # (3) crafted version strings with path components: nothing outside the bundle may be probed or read
         evil = os.path.join(tmp, 'evil'); src = os.path.join(bundled, 'clients', 'wows', 'versions', '0_9_4', 'scripts')
         shutil.copytree(src, os.path.join(evil, 'scripts'))
@@ -176,11 +222,20 @@ def run(ctx):
                    '13,0,0,7983292/' + os.path.relpath(evil, os.path.join(bundled, 'clients', 'wows', 'versions', '13_0_0_7983292')), 'os,path,join,x', '0,9,4,2442770/scripts')]
         crafted += [('wowpreplay', 'clientVersion', 'World of Warplanes ' + v) for v in ('2.1.17/../../../../x', evil + '.1.2', '2.1.17.' + evil)]
         crafted += [('wotreplay', 'clientVersionFromXml', 'World\xa0of\xa0Tanks v.' + v) for v in ('1.10.0/../../x #1', evil + ' #1', '../../..')]
+        # ... and directories laid out like a VERSION PACKAGE (an __init__.py that would leave a marker if it were ever executed)
+        pkgroot = os.path.join(tmp, 'pk'); marker = os.path.join(tmp, 'EXECUTED')
+        for name in ('extras_1_2_3', 'extras_1_2', 'x_9_4_1', 'x_9_4'):
+            os.makedirs(os.path.join(pkgroot, name, 'scripts', 'entity_defs'), exist_ok=True)
+            open(os.path.join(pkgroot, name, '__init__.py'), 'w').write('open(%r, "a").write("x")\n' % marker)
+            for fn in ('battle_controller.py', 'constants.py', 'players_info.py'): open(os.path.join(pkgroot, name, fn), 'w').write('open(%r, "a").write("x")\n' % marker)
+        crafted += [('wowsreplay', 'clientVersionFromXml', v) for v in (pkgroot + '/extras, 1, 2, 3', pkgroot + '/extras,1,2,3', pkgroot + '/x,9,4,1', '0,9,4,/../../../../../../../../' + pkgroot.lstrip('/') + '/x')]
+        crafted += [('wowpreplay', 'clientVersion', 'World of Warplanes ' + pkgroot + '/extras.1.2.3'), ('wotreplay', 'clientVersionFromXml', 'World\xa0of\xa0Tanks v.' + pkgroot + '/extras.1.2 #1')]
         for ext, key, vs in crafted:
             p = os.path.join(tmp, 'crafted.' + ext); battle.write_replay(p, ext, {key: vs}, b'')
             out, ev, marks = audited_parse(p)
             ctx.case(('crafted-version', vs)); ctx.count('crafted:' + ext)
             bad = judge(p, ev, [bundled])
+            if os.path.exists(marker): bad.append(('executed', 'code of a package outside the bundle was run')); os.unlink(marker)
             if bad:
                 ctx.violation(dict(kind='crafted-version-string', ext=ext, version_string=vs, events=bad[:6],
                                    how='a replay whose open block carries that version string; audit events during ReplayParser(file).get_info()'))
